@@ -183,6 +183,11 @@ def directed(run, prop, tier, seed):
                 (f"*=0x008000\n.for k := {a}, {a + c} {{\n.db k\n}}\n.for k := {a}, {a} {{\n.db 0xEE\n}}\n.for k := {a}, {a - 1} {{\n.db 0xEF\n}}\n", bytes(range(a, a + c))),
                 (f"*=0x008000\n.macro fill(from, to) {{\n.for i := from, to {{\n.db i\n}}\n}}\nfill(0, 2)\n.db 0xFF\nfill(5, 8)\n.db 0xEE\n", bytes([0, 1, 0xFF, 5, 6, 7, 0xEE])),
                 (f"*=0x008000\nk = 0x42\n.for k := 0, {c} {{\n.db k\n}}\n.db k\n", bytes(range(c)) + b"\x42"),
+                # a named scope inside the loop body exports to its own iteration
+                (f"*=0x008000\n.for k := 0, {c} {{\n.scope s {{\nl:\n.db k\n}}\n.dw s.l\n}}\n", b"".join(bytes([i]) + (0x8000 + 3 * i).to_bytes(2, "little") for i in range(c))),
+                (f"*=0x008000\n.for i := 0, 2 {{\n.for j := 0, {c} {{\n.scope t {{\nv = i + j\n}}\n.db t.v\n}}\n}}\n", bytes(i + j for i in range(2) for j in range(c))),
+                # a macro defined in the selected branch only
+                (f"*=0x008000\n.if {a} {{\n.macro pick() {{\n.db 0x11\n}}\n}} else {{\n.macro pick() {{\n.db 0x22\n}}\n}}\npick()\n.if 0 {{\n.macro pick() {{\n.db 0x33\n}}\n}}\npick()\n", bytes([0x11, 0x11])),
                 (f"*=0x008000\n.for i := 0, 2 {{\n.for j := 0, {c} {{\n.db i, j\n}}\n}}\njmp.w done\ndone:\n", b"".join(bytes([i, j]) for i in range(2) for j in range(c)) + b"\x4c" + (0x8000 + 4 * c + 3).to_bytes(2, "little")),
             ]
     progs = [raw("low_rom", src, meta=exp) for src, exp in fam]
